@@ -10,9 +10,7 @@ verus! {
 //@enum SigningHash @ src/ecdsa/mod.rs clone copy partialeq eq
 //@enum SigHash @ src/transaction/sighash.rs clone copy partialeq eq
 //@enumtable SigHash @ src/transaction/sighash.rs from_u8
-pub trait AsRef<T: ?Sized> { spec fn bytes_v(&self) -> Seq<u8>; fn as_ref(&self) -> (r: &[u8]) ensures r@ == self.bytes_v(); }
-impl AsRef<[u8]> for &[u8] { open spec fn bytes_v(&self) -> Seq<u8> { self@ } #[verifier::external_body] fn as_ref(&self) -> (r: &[u8]) { unimplemented!() } }
-impl AsRef<[u8]> for Vec<u8> { open spec fn bytes_v(&self) -> Seq<u8> { self@ } #[verifier::external_body] fn as_ref(&self) -> (r: &[u8]) { unimplemented!() } }
+//@include shims/asref.rs
 //@include shims/k256.rs
 pub struct GenericArray;
 impl GenericArray { #[verifier::external_body] pub fn from_slice<'a>(s: &'a [u8]) -> (r: &'a FieldBytes) requires s@.len() == 32 ensures r@ == s@ { unimplemented!() } }
